@@ -32,6 +32,13 @@ func TestSweep(t *testing.T) {
 								}
 								ops = append(ops, Op{Kind: "put"}, Op{Kind: "get"}, Op{Kind: "get"})
 								Oracle.One(t, env, rec, "sweep", &Case{T: tn, C: C, L: L, K: K, Ops: ops})
+								if rs >= 0 && C <= 2 {
+									// reslice first, use through the reslice, put the ORIGINAL header; and: use through the original, put the reslice
+									o2 := []Op{{Kind: "get"}, {Kind: "reslice", N: rs}, {Kind: u, N: n}, {Kind: "put", V: 1}, {Kind: "get"}, {Kind: "get"}}
+									Oracle.One(t, env, rec, "sweep", &Case{T: tn, C: C, L: L, K: K, Ops: o2})
+									o3 := []Op{{Kind: "get"}, {Kind: "reslice", N: rs}, {Kind: u, N: n, V: 1}, {Kind: "put"}, {Kind: "get"}, {Kind: "get"}}
+									Oracle.One(t, env, rec, "sweep", &Case{T: tn, C: C, L: L, K: K, Ops: o3})
+								}
 							}
 						}
 					}
